@@ -129,6 +129,9 @@ CAUSE_DOC = collections.OrderedDict([
     ("relative-datatype-under-base",
      "literal whose datatype is a relative IRI (\"20\"^^<celsius>): it resolves against the @base in force, also when the same "
      "literal text was read under another base earlier in the document or in an earlier document of the same process"),
+    ("tab-before-comment",
+     "trailing comment whose '#' follows a TAB (or TAB+blank / several blanks) on a line that is followed by more of the "
+     "document: it must be stripped like a comment after one blank (the same document with ' # note' reads correctly)"),
     ("prefix-redeclared",
      "a prefix label declared again with another namespace: from there on the later declaration holds (names used before and after)"),
     ("base-redeclared", "@base declared again: relative IRIs after it resolve against the later base"),
@@ -239,6 +242,8 @@ def gen_cases(pid, tier, seed):
         for i in range(n_random):
             units.append(("ttl", R.ttl_random_case(rng, safe_layout=False)))
             units.append(("ttl", R.ttl_random_case(rng, safe_layout=True)))
+        for case in R.ttl_tab_comment_cases():
+            units.append(("ttl", case))
         for case in R.ttl_redeclaration_cases():
             units.append(("ttlx", case))
         for case in R.ttl_sequence_cases():
@@ -448,7 +453,13 @@ def eval_unit(unit, confirm=False):
         outcome = R.read_ttl(text)
         res["evaluated"] = 1
         res["nontrivial"] = 1
-        for (category, symptom, descr) in R.ttl_classify(case, outcome, exp):
+        devs = R.ttl_classify(case, outcome, exp)
+        if devs and case.get("family") == "tab-before-comment":
+            # counterfactual: what the same document shows with its comment after ONE blank is not put down to the TAB
+            twin = R.ttl_tab_comment_twin(case)
+            same = set(d[1] for d in R.ttl_classify(twin, R.read_ttl(R.ttl_text(twin)), exp))
+            devs = [(cat if sym in same else "tab-before-comment", sym, descr) for (cat, sym, descr) in devs]
+        for (category, symptom, descr) in devs:
             rec = {"pid": "C07", "kind": "ttl", "case": case, "text": text, "expected": exp,
                    "observed": _jsonable_outcome(outcome), "symptom": descr}
             res["deviations"].append((make_key("C07", category, symptom), rec))
@@ -642,7 +653,8 @@ def run(pid, tier="quick", seed=0):
                   "<relative> under @base, blank nodes, 'a', literals with escapes and '#' ';' ',' '.', language tags, datatypes as "
                   "<IRI> / xsd: / custom prefix, integers) in canonical layout, literals x trailing comments; 2 x %d random documents "
                   "(1-3 subjects, ';' and ',' groups, rich separators %r, and a house-style layout with breaks after punctuation "
-                  "only); 14 documents x 3 layouts that declare a prefix label or @base again and reuse the same names; %d documents "
+                  "only); 410 documents with one trailing comment after TAB / TAB+blank / several blanks at every token boundary that is followed by "
+                  "more of the document; 14 documents x 3 layouts that declare a prefix label or @base again and reuse the same names; %d documents "
                   "outside the dialect; seed %s; guard: alarm %d s per document"
                   % (SIZES[tier][pid][0], len(R.SHAPES), R.SHAPES, len(R.PALETTES), len(R.SUBJ), len(R.PRED),
                      len(R.OBJ), SIZES[tier][pid][1], sorted(set(R.RICH_SEPS)), len(R.OUTSIDE_DIALECT), seed, R.WALL_SECONDS))
@@ -776,6 +788,16 @@ def _mutants():
             return memo[raw_elem]
         return patch(ttl.BigTtlTriplesYielder, "_parse_elem", bad)
 
+    def comments_stripped_before_blank_normalisation():
+        def bad(self, str_line):
+            result = str_line.strip()
+            if " #" in result:                                   # on the RAW line: a '#' after a TAB is not seen
+                result = self._remove_comments_if_needed(result)
+            result = ttl._OTHER_BLANKS.sub(" ", result)
+            result = ttl._SEVERAL_BLANKS.sub(" ", result)
+            return result.strip()
+        return patch(ttl.BigTtlTriplesYielder, "_clean_line", bad)
+
     def state_machine_keeps_waiting_for_object():
         old = ttl.BigTtlTriplesYielder._assing_tmp_element_and_promote_state
 
@@ -815,6 +837,8 @@ def _mutants():
         ("C06", "_look_for_last_index_of_bnode_token matches _:[\\w\\-]+", bnode_label_by_regex, "", "C06:bnode-label-with-dot:"),
         ("C07", "parse_literal caches the datatype by the text after the closing quote", literal_type_cached_by_suffix, "",
          "C07:relative-datatype-under-base:"),
+        ("C07", "_clean_line strips comments before tabs / multiple blanks are normalised", comments_stripped_before_blank_normalisation, "",
+         "C07:tab-before-comment:"),
         ("C07", "_parse_elem memoised by raw token across @prefix / @base lines", prefix_expansion_memo, "", "C07:prefix-redeclared:"),
         ("C07", "_assing_tmp_element_and_promote_state: predicate after ';' taken for the object", state_machine_keeps_waiting_for_object),
         ("C07", "',' handled like ';' in the statement state machine", comma_resets_to_predicate),
